@@ -127,4 +127,45 @@ Section Facts.
     change (blen [] + blen data) with (blen data) in D.
     rewrite D. reflexivity.
   Qed.
+
+  (* ---- end to end, upload: the owner receiver fed the device's messages stores exactly the file, at the last tick ---- *)
+  Definition quiet2 (cs : list bytes) : list (option (unit + bytes)) := flat_map (fun _ => [None; None]) cs.
+
+  Lemma ul_chunks cs : forall l b,
+    ul_run (mku l [] b false) (flat_map (fun c => [UMsg (MData [c] false); UTick]) cs) =
+      (mku l [] (b ++ concat cs) false, quiet2 cs).
+  Proof.
+    induction cs as [|c cs IH]; intros l b; cbn [flat_map app Transfer.ul_run concat quiet2].
+    - now rewrite app_nil_r.
+    - cbn [Transfer.ul_step u_over u_length u_sha u_buf concat]. rewrite app_nil_r.
+      cbn [length Nat.eqb negb andb]. rewrite IH. rewrite <- app_assoc. reflexivity.
+  Qed.
+
+  Lemma ul_run_app a : forall s b,
+    ul_run s (a ++ b) = (fst (ul_run (fst (ul_run s a)) b), snd (ul_run s a) ++ snd (ul_run (fst (ul_run s a)) b)).
+  Proof.
+    induction a as [|m a IH]; intros s b; cbn [app Transfer.ul_run].
+    - cbn [fst snd app]. now destruct (ul_run s b).
+    - destruct (ul_step s m) as [s1 x]. rewrite IH.
+      destruct (ul_run s1 a) as [s2 o2]. cbn [fst snd]. destruct (ul_run s2 b) as [s3 o3]. reflexivity.
+  Qed.
+
+  Theorem upload_end_to_end sz data : data <> [] -> sha384 data <> [] -> (1 <= sz)%nat ->
+    snd (ul_run u0 (upload_messages sha384 sz data)) =
+      [None; None] ++ quiet2 (chunks sz data) ++ [None; Some (inr data)].
+  Proof.
+    intros ND NS SZ. unfold upload_messages, u0.
+    cbn [app Transfer.ul_run Transfer.ul_step u_over u_length u_sha u_buf length Nat.eqb negb andb].
+    rewrite ul_run_app, ul_chunks. cbn [fst snd app].
+    rewrite (chunks_concat sz data SZ).
+    cbn [Transfer.ul_run Transfer.ul_step u_over u_length u_sha u_buf].
+    assert (L : length (sha384 data) <> 0%nat) by (destruct (sha384 data); [contradiction|discriminate]).
+    destruct (Nat.eqb (length (sha384 data)) 0) eqn:E; [apply Nat.eqb_eq in E; contradiction|]. cbn [negb andb].
+    assert (P : 0 < blen data) by (unfold blen; destruct data; [contradiction|cbn [length]; lia]).
+    replace (0 <? blen data) with true by (symmetry; now apply Z.ltb_lt).
+    replace (blen data <=? blen data) with true by (symmetry; apply Z.leb_refl).
+    replace (blen data <? blen data) with false by (symmetry; apply Z.ltb_irrefl).
+    rewrite bytes_eqb_refl. cbn [negb andb snd]. reflexivity.
+  Qed.
 End Facts.
+
